@@ -92,8 +92,10 @@ def collect(facts, crates, kinds):
     """-> (sites, n_functions): every site of the requested kinds in hand-written code of `crates`"""
     from ..intervals import register_adts
     from .. import counters
+    from .. import fieldinv
     register_adts(facts)
     counters.register(facts)
+    fieldinv.register(facts)
     out = []
     nfn = 0
     for c in crates:
